@@ -82,6 +82,17 @@ class FlowFields(ImageBatch):
             axes = Axes.from_arg(axes)
         self._axes = axes
 
+    @classmethod
+    def from_images(cls: Type[TFlowFields], images: Sequence[Image]) -> TFlowFields:
+        r"""Create batch of flow fields from sequence of flow fields defined with respect to the same axes."""
+        batch = super().from_images(images)
+        axes = [image.axes() for image in images if isinstance(image, FlowField)]
+        if axes:
+            if len(axes) != len(images) or any(a != axes[0] for a in axes):
+                raise ValueError(f"{cls.__name__}.from_images() 'images' must have the same axes")
+            batch._axes = axes[0]
+        return batch
+
     def _make_instance(
         self: TFlowFields,
         data: Optional[Tensor] = None,
